@@ -145,6 +145,80 @@ fn impl_header(i: &syn::ItemImpl) -> String {
     }
 }
 
+/// E31: a call to a free function of the same file that the unit does not list and whose body is straight-line pure code (the E27 conditions:
+/// only `let x = e;` and a tail expression, no mutation, early exit, loop, closure or macro) is replaced by that body, with the arguments bound
+/// first, in order, to the parameters' declared types: `f(a, b)` ==> `{ let __vx_i0: T0 = a; let __vx_i1: T1 = b; { let p0: T0 = __vx_i0; let p1: T1 =
+/// __vx_i1; BODY } }`. That is what the call evaluates to; the caller is then verified against the helper's real text, so moving a sub-expression
+/// into such a helper keeps the caller's contract decidable (a helper that is not pure in that sense is left alone: undecided as before).
+struct HelperInliner<'a> {
+    helpers: BTreeMap<String, &'a syn::ItemFn>,
+    count: usize,
+}
+impl<'a> VisitMut for HelperInliner<'a> {
+    fn visit_expr_mut(&mut self, e: &mut Expr) {
+        visit_mut::visit_expr_mut(self, e);
+        let mut repl: Option<Expr> = None;
+        if let Expr::Call(c) = &*e {
+            if let Expr::Path(p) = &*c.func {
+                if let Some(id) = p.path.get_ident() {
+                    if let Some(f) = self.helpers.get(&id.to_string()) {
+                        if f.sig.inputs.len() == c.args.len() {
+                            let mut outer: Vec<syn::Stmt> = Vec::new();
+                            let mut inner: Vec<syn::Stmt> = Vec::new();
+                            let mut ok = true;
+                            for (k, (a, arg)) in f.sig.inputs.iter().zip(c.args.iter()).enumerate() {
+                                if let syn::FnArg::Typed(t) = a {
+                                    let pat = &t.pat;
+                                    let ty = &t.ty;
+                                    let tmp = format_ident!("__vx_i{}", k);
+                                    outer.push(parse_quote!(let #tmp: #ty = #arg;));
+                                    inner.push(parse_quote!(let #pat: #ty = #tmp;));
+                                } else {
+                                    ok = false;
+                                }
+                            }
+                            if ok {
+                                let body = &f.block;
+                                repl = Some(parse_quote!({ #(#outer)* { #(#inner)* #body } }));
+                            }
+                        }
+                    }
+                }
+            }
+        }
+        if let Some(n) = repl {
+            *e = n;
+            self.count += 1;
+        }
+    }
+}
+
+fn inline_free_helpers(block: &mut Block, items: &Vec<syn::Item>, planned: &BTreeSet<String>) -> usize {
+    let mut helpers: BTreeMap<String, &syn::ItemFn> = BTreeMap::new();
+    for it in items {
+        if let syn::Item::Fn(func) = it {
+            let n = func.sig.ident.to_string();
+            let has_lifetimes = func.sig.generics.lifetimes().next().is_some();
+            if !planned.contains(&n) && !has_lifetimes && pure_straightline(&func.sig, &func.block) {
+                helpers.insert(n, func);
+            }
+        }
+    }
+    if helpers.is_empty() {
+        return 0;
+    }
+    let mut total = 0;
+    for _round in 0..4 {
+        let mut inl = HelperInliner { helpers: helpers.clone(), count: 0 };
+        inl.visit_block_mut(block);
+        if inl.count == 0 {
+            break;
+        }
+        total += inl.count;
+    }
+    total
+}
+
 fn extract_item(f: &syn::File, item: &Value, planned: &BTreeSet<String>, auto_done: &mut BTreeSet<String>) -> Result<Value, String> {
     let kind = item["kind"].as_str().unwrap_or("");
     let name = item["name"].as_str().unwrap_or("").to_string();
@@ -212,7 +286,11 @@ fn extract_item(f: &syn::File, item: &Value, planned: &BTreeSet<String>, auto_do
                         let plan = fn_plans.first().cloned().unwrap_or(json!({"name": name}));
                         let mut func2 = func.clone();
                         func2.attrs.clear();
-                        let info = transform_fn(&mut func2.sig, &mut func2.block, &plan, 0, &type_subst)?;
+                        let inlined = inline_free_helpers(&mut func2.block, items, planned);
+                        let mut info = transform_fn(&mut func2.sig, &mut func2.block, &plan, 0, &type_subst)?;
+                        if inlined > 0 {
+                            info["rules_applied"]["E31-unlisted-pure-free-helper-inlined"] = json!(inlined);
+                        }
                         let file = syn::File { shebang: None, attrs: vec![], items: vec![syn::Item::Fn(func2)] };
                         return Ok(json!({"text": prettyplease::unparse(&file), "fns": [info]}));
                     }
@@ -242,7 +320,11 @@ fn extract_item(f: &syn::File, item: &Value, planned: &BTreeSet<String>, auto_do
                                 for (j, p) in fn_plans.iter().enumerate() {
                                     if p["name"].as_str() == Some(mname.as_str()) {
                                         m.attrs.clear();
-                                        let info = transform_fn(&mut m.sig, &mut m.block, p, j, &type_subst)?;
+                                        let inlined = inline_free_helpers(&mut m.block, items, planned);
+                                        let mut info = transform_fn(&mut m.sig, &mut m.block, p, j, &type_subst)?;
+                                        if inlined > 0 {
+                                            info["rules_applied"]["E31-unlisted-pure-free-helper-inlined"] = json!(inlined);
+                                        }
                                         infos.push((j, info));
                                         found.insert(mname.clone());
                                         keep.push(ii.clone());
